@@ -183,6 +183,28 @@ pub mod fixed_arr {
     }
 }
 
+/// Deserialize a value whose human readable form is a hex string of exactly `byte_len`
+/// bytes. The `blst` backend's string decoders assume well-formed input (they assert on
+/// non-hex characters and index past the end of short strings), so the string is
+/// validated here and malformed input is reported as an error instead.
+#[cfg(feature = "blst")]
+pub fn deserialize_hex_str<'de, D, T>(d: D, byte_len: usize) -> Result<T, D::Error>
+where
+    D: serde::Deserializer<'de>,
+    T: serde::Deserialize<'de>,
+{
+    use serde::de::Error;
+
+    let hex_str = <&str as serde::Deserialize>::deserialize(d)?;
+    if hex_str.len() != byte_len * 2 || !hex_str.bytes().all(|b| b.is_ascii_hexdigit()) {
+        return Err(D::Error::custom(format!(
+            "invalid hex string, expected {} hex characters",
+            byte_len * 2
+        )));
+    }
+    T::deserialize(serde::de::value::BorrowedStrDeserializer::new(hex_str))
+}
+
 pub trait IsZero {
     fn is_zero(&self) -> Choice;
 }
